@@ -368,6 +368,9 @@ func ruleOU5(c *Ctx) {
 				if b, ok := x.X.Type().Underlying().(*types.Basic); !ok || b.Info()&types.IsString == 0 {
 					return
 				}
+				if c.asciiRun(x.X) {
+					return // a run of ASCII bytes has a rune boundary at every offset
+				}
 				what = "byte-slices a string"
 				bounds = []ssa.Value{x.Low, x.High}
 			case *ssa.Convert:
@@ -604,7 +607,11 @@ func ruleOU6(c *Ctx) {
 							if !(strings.HasPrefix(in, "fmt.Print") || (strings.HasPrefix(in, "fmt.Fprint") && len(inner.Common().Args) > 0 && isGlobalLoad(inner.Common().Args[0], "Stdout"))) {
 								continue
 							}
-							for _, a := range inner.Common().Args {
+							cands := append([]ssa.Value{}, inner.Common().Args...)
+							for i := range inner.Common().Args {
+								cands = append(cands, variadicElems(inner.Common().Args[i:i+1])...)
+							}
+							for _, a := range cands {
 								if p, ok := strip(a).(*ssa.Parameter); ok && p.Parent() == h {
 									isOut = true
 								}
@@ -954,7 +961,7 @@ func ruleOU8(c *Ctx) {
 
 func init() {
 	register(&Rule{ID: "OU9", Min: 1, Run: ruleOU9,
-		Doc: "padding-measured-not-assumed: in the row formatters, the amount of padding that places the id column (the count of strings.Repeat) never derives from a width *budget* handed to a truncating helper (truncateToWidth/abbreviate): a truncated text may come out narrower than its budget (a wide glyph does not fit the last column), so its width has to be measured after truncation, not assumed"})
+		Doc: "padding-measured-not-assumed: in the row formatters, the amount of padding that places the id column (the count of strings.Repeat) never derives from a width *budget* handed to a truncating helper (truncateToWidth/abbreviate): a truncated text may come out narrower than its budget (a wide glyph does not fit the last column), so its width has to be measured after truncation, not assumed. Calls to a blank-run helper of the module (func(n int) string handing back \"\", strings.Repeat of a constant or a slice of a constant run of ASCII blanks) are padding like strings.Repeat, and such a helper owes exactly n blanks (blank-run-exact: the count it repeats or slices to is its parameter itself, not a clamped copy)"})
 }
 
 func ruleOU9(c *Ctx) {
@@ -991,10 +998,10 @@ func ruleOU9(c *Ctx) {
 		if len(budgets) == 0 {
 			continue
 		}
-		reps := callsNamed(f, "strings.Repeat")
+		reps, cnts := c.paddingCalls(f)
 		for i, rep := range reps {
 			n++
-			cnt := rep.Common().Args[1]
+			cnt := cnts[i]
 			bad := ""
 			for _, b := range budgets {
 				if arithDerives(cnt, b) {
@@ -1008,6 +1015,7 @@ func ruleOU9(c *Ctx) {
 	if n == 0 {
 		c.bad("<module>", "padding#0", "-", "no row formatter combining truncation and padding found")
 	}
+	c.blankRunExact()
 }
 
 // arithDerives: v is computed from src by integer arithmetic alone (+, -, phi, locals, conversions); a call on the way
@@ -1214,14 +1222,14 @@ func ruleOU11(c *Ctx) {
 		if Outermost(f).Pkg != c.Ergo {
 			continue
 		}
-		reps := callsNamed(f, "strings.Repeat")
+		reps, cnts := c.paddingCalls(f)
 		if len(reps) == 0 {
 			continue
 		}
 		nn := &nonNegCtx{c: c, f: f, facts: directFacts(f), seen: map[ssa.Value]bool{}}
-		for _, rep := range reps {
+		for i, rep := range reps {
 			cnt[f]++
-			v := rep.Common().Args[1]
+			v := cnts[i]
 			c.check(nn.nonNeg(v, rep.Block()), c.Name(f), fmt.Sprintf("repeat-count#%d", cnt[f]), c.Pos(rep.Pos()), "the repeat count is not negative",
 				"the count of this strings.Repeat ("+c.canon(v)+") is not provably non-negative: with an id or prefix wider than the computed column (a long id in a merged log, a narrow terminal) it goes negative and the command panics instead of printing")
 		}
